@@ -21,8 +21,8 @@ type c14Scenario struct {
 	LatencyNs int64       `json:"latency_ns"`
 }
 
-var localAlphabet = []string{"a", "b", "z", "A", "0", "7", ".", "-", "_", "&", "é", "ü", "日", "本", "✓", "+", "=", "%", "!", "~", "$", "*", "(", ")", ";", ",", "#", "𝔘"}
-var secretAlphabet = []string{"a", "B", "3", " ", "&", "<", ">", "\"", "'", "]]>", "\x01", "\x00", "\x7f", "é", "日本", "\xff", "\xc3", "\t", "\n", "=", "/", "+", ":", "@", "𝔘", "\\"}
+var localAlphabet = []string{"%", "%v", "a", "b", "z", "A", "0", "7", ".", "-", "_", "&", "é", "ü", "日", "本", "✓", "+", "=", "%", "!", "~", "$", "*", "(", ")", ";", ",", "#", "𝔘"}
+var secretAlphabet = []string{"%", "%s", "%%", "%d", "%!", "a", "B", "3", " ", "&", "<", ">", "\"", "'", "]]>", "\x01", "\x00", "\x7f", "é", "日本", "\xff", "\xc3", "\t", "\n", "=", "/", "+", ":", "@", "𝔘", "\\"}
 
 func genFrom(g G, kind string, alpha []string, lo, hi int) string {
 	n := g.Range(kind+"-n", lo, hi)
